@@ -554,7 +554,19 @@ class Run:
         kind = st[0]
         run = self
         if kind == "sleep":
-            await anyio.sleep(st[1])
+            if (idx + len(path)) % 3 == 0:
+                # the component is suspended in an awaitable that is no coroutine object of its own (`await anext(it, default)`)
+                async def ticker() -> Any:
+                    await anyio.sleep(st[1])
+                    yield None
+
+                agen = ticker()
+                try:
+                    await anext(agen, None)
+                finally:
+                    await agen.aclose()
+            else:
+                await anyio.sleep(st[1])
         elif kind == "yield":
             for _ in range(st[1]):
                 await checkpoint()
